@@ -66,6 +66,9 @@ func (s *vkMStub) ServeDNS(ctx context.Context, ch *middleware.Chain) {
 		Txt: []string{vkMarker(q.Name, req.Id)}}}
 	_ = ch.Writer.WriteMsg(m)
 	ch.Cancel()
+	if strings.HasPrefix(q.Name, "panic") {
+		panic("vk: scripted handler panic after the reply was written")
+	}
 }
 
 func (s *vkMStub) count() int {
@@ -228,7 +231,7 @@ type vkFrame struct {
 	Expect string // answer | formerr | notimp | none | hangup
 }
 
-var vkFrameKinds = []string{"hit", "miss", "malf", "qr", "notify", "short", "big2048", "big2049", "big4200"}
+var vkFrameKinds = []string{"hit", "miss", "malf", "qr", "notify", "short", "big2048", "big2049", "big4200", "panic"}
 
 func vkQueryBytes(name string, id uint16, total int) []byte {
 	m := new(dns.Msg)
@@ -274,6 +277,11 @@ func vkMakeFrame(kind, tag string, pos int) vkFrame {
 		f.Raw = vkQueryBytes(f.Name, id, 0)
 	case "miss":
 		f.Raw = vkQueryBytes(f.Name, id, 0)
+	case "panic":
+		// the handler answers and then panics: the engine drops the connection;
+		// the reply may or may not have left (at most once), nothing follows
+		f.Raw = vkQueryBytes(f.Name, id, 0)
+		f.Expect = "panic"
 	case "big2048":
 		f.Raw = vkQueryBytes(f.Name, id, 2048)
 	case "big2049":
@@ -336,7 +344,7 @@ func (w *vkSrvWorld) warm(tags ...string) string {
 // purge removes the run's miss-type names so the next run misses again.
 func (w *vkSrvWorld) purge(frames []vkFrame) {
 	for _, f := range frames {
-		if f.Expect == "answer" && f.Kind != "hit" {
+		if (f.Expect == "answer" || f.Expect == "panic") && f.Kind != "hit" {
 			w.cache.Purge(dns.Question{Name: f.Name, Qtype: dns.TypeTXT, Qclass: dns.ClassINET})
 		}
 	}
@@ -373,8 +381,15 @@ func vkJudgeStream(tag string, complete []vkFrame, out []byte, foreign [][]byte)
 // frame body, where the engine deliberately keeps earlier replies staged.
 func vkJudgeStreamAt(tag string, complete []vkFrame, out []byte, foreign [][]byte, all bool) string {
 	var expect []vkFrame
+	optionalLast := false
 	for _, f := range complete {
 		if f.Expect == "hangup" {
+			break
+		}
+		if f.Expect == "panic" {
+			f.Expect = "answer"
+			expect = append(expect, f)
+			optionalLast = true
 			break
 		}
 		if f.Expect != "none" {
@@ -384,6 +399,9 @@ func vkJudgeStreamAt(tag string, complete []vkFrame, out []byte, foreign [][]byt
 	frames, bad := vkSplitFrames(out)
 	if bad != "" {
 		return "connection " + tag + ": " + bad
+	}
+	if optionalLast && len(frames) == len(expect)-1 {
+		expect = expect[:len(expect)-1]
 	}
 	if len(frames) != len(expect) && (all || len(frames) > len(expect)) {
 		return fmt.Sprintf("connection %s: %d replies for %d admitted queries (%s)", tag, len(frames), len(expect), vkDescribe(frames))
@@ -408,6 +426,9 @@ func vkJudgeStreamAt(tag string, complete []vkFrame, out []byte, foreign [][]byt
 		}
 		if !m.Response {
 			return where + " has QR=0"
+		}
+		if len(r) == 12 && !bytes.Equal(r[4:12], make([]byte, 8)) {
+			return fmt.Sprintf("%s is a bare header whose section counts %x announce records it does not carry (stale bytes of an earlier reply)", where, r[4:12])
 		}
 		switch f.Expect {
 		case "formerr":
